@@ -625,6 +625,9 @@ class HeapExec(Exec):
             p.out = ASeq.fresh("out")
 
     # ------------------------------------------------------------------ contracts at call sites
+    def fresh_result(self, kind):
+        return fresh_value(kind, "res")
+
     def apply_spec(self, spec, p, args, label):
         """replace a call by the callee's contract: PRE obligations, then one continuation per outcome"""
         args = dict(args)
@@ -636,6 +639,10 @@ class HeapExec(Exec):
                 p.assume(iterable(o), itlen(o) == s.n, itat(o) == s.a, o != NONE)
                 args[n] = vref(o)
         ctx = Ctx(spec, p.S, args)
+        if getattr(spec, "uses_witness", False):
+            # the contract speaks about 'some callback with the stated pointwise behaviour' (existential witness)
+            ctx.wit = self.fresh_witness()
+            p.extra["fnwit"] = list(p.extra.get("fnwit", [])) + [ctx.wit]
         for c in clauses(spec.requires(ctx)):
             self.oblig(p, "PRE", "%s/%s" % (label, c.name), c.f)
         outs = []
@@ -653,7 +660,8 @@ class HeapExec(Exec):
             if o.value is not None:
                 res = V(o.res, o.value(ctx))
             else:
-                res = fresh_value("int" if (o.res.startswith("wit") or o.res == "payload") else o.res, "res")
+                res = self.fresh_result("int" if (o.res.startswith("wit") or o.res == "payload") else
+                                        ("none" if o.res == "exc" else o.res))
             q.set_state(S1)
             q.assume(*[c.assumable() for c in clauses(o.post(ctx, S1, res))])
             if o.kind == "return":
@@ -664,6 +672,38 @@ class HeapExec(Exec):
                     site = "in-handler:" + site
                 self.raise_(q, Exc(o.exc, site, res))
         return outs
+
+
+class HeapWorld:
+    def make_exec(self, spec, fi):
+        return HeapExec(spec, fi)
+
+    def initial_state(self):
+        return State("0")
+
+    def make_arg(self, n, k):
+        if k == "optiter":
+            return V("optiter", Const("arg_" + n, R))
+        if k == "aseq":
+            return V("aseq", ASeq(Int("arg_%s_len" % n), Array("arg_%s_at" % n, I, R)))
+        return V(k, Const("arg_" + n, R)) if k in ("ref", "listref") else initial_value(k, "arg_" + n)
+
+    def arg_facts(self, args, spec):
+        return [args[n].t.n >= 0 for n, k in spec.params if k == "aseq"]
+
+    def empty_out(self, spec):
+        return ASeq(IntVal(0), K(I, NONE))
+
+    def gen_value(self, p):
+        return V("aseq", p.out)
+
+    def kind_ok(self, want, value):
+        if want == "iterseq":
+            return value.k == "aseq"
+        return value.k == want
+
+
+HEAPWORLD = HeapWorld()
 
 
 # --------------------------------------------------------------------------------------- verification of a Spec
@@ -678,38 +718,57 @@ def verify_spec(spec):
         fi = spec.fi()
     except frontend.StructError as e:
         return None, [], [StructFailure("%s:%s.%s[%s]" % (spec.relpath, spec.cls, spec.name, spec.role), str(e))]
-    ex = HeapExec(spec, fi)
-    S0 = State("0")
+    world = getattr(spec, "world", None) or HEAPWORLD
+    ex = world.make_exec(spec, fi)
+    S0 = world.initial_state()
     formal = fi.params()
     if [n for n, _ in spec.params] != formal:
         return fi, [], [StructFailure(fi.ident, "parameters %s differ from the contract's %s"
                                       % (formal, [n for n, _ in spec.params]))]
-    args = {}
-    for n, k in spec.params:
-        if k == "optiter":
-            args[n] = V("optiter", Const("arg_" + n, R))
-        elif k == "aseq":
-            args[n] = V("aseq", ASeq(Int("arg_%s_len" % n), Array("arg_%s_at" % n, I, R)))
-        else:
-            args[n] = V(k, Const("arg_" + n, R)) if k in ("ref", "listref") else initial_value(k, "arg_" + n)
+    args = {n: world.make_arg(n, k) for n, k in spec.params}
     ctx = Ctx(spec, S0, args)
     ex.fnctx = ctx
     pre = clauses(spec.requires(ctx))
-    p0 = Path(dict(args), S0, list(S0.axioms) + [c.f for c in pre], [], ASeq(IntVal(0), K(I, NONE)) if spec.generator else None)
-    for n, k in spec.params:
-        if k == "aseq":
-            p0.pc.append(args[n].t.n >= 0)
+    p0 = Path(dict(args), S0, list(S0.axioms) + world.arg_facts(args, spec) + [c.f for c in pre], [],
+              world.empty_out(spec) if spec.generator else None)
+    hints = getattr(spec, "hints", None)
+    if hints:
+        p0.pc.extend(hints(ctx))
+    if hasattr(world, "init_path"):
+        world.init_path(p0, spec, ctx)
     try:
         exits = ex.run(p0)
     except (Unsupported, frontend.StructError) as e:
         return fi, ex.obl, [StructFailure(fi.ident, "%s: %s" % (type(e).__name__, e))]
     fails = []
+    try:
+        _judge_exits(spec, world, ex, ctx, exits)
+    except (Unsupported, frontend.StructError, AttributeError, TypeError, KeyError, IndexError, ValueError) as e:
+        # the contract cannot even be evaluated on the shape this code now has
+        return fi, ex.obl, [StructFailure(fi.ident, "contract not applicable: %s: %s" % (type(e).__name__, e))]
+    except Exception as e:
+        if type(e).__name__ == "Z3Exception":
+            return fi, ex.obl, [StructFailure(fi.ident, "contract not applicable (sort error): %s" % e)]
+        raise
+    return fi, ex.obl, fails
+
+
+def _judge_exits(spec, world, ex, ctx, exits):
     for x in exits:
         p = x.path
         if spec.generator and x.kind == "return":
-            value = V("aseq", p.out)
+            value = world.gen_value(p)
         else:
             value = x.value
+            if hasattr(world, "normalize_result") and value is not None:
+                value = world.normalize_result(value, p, ex)
+        ctx.final_path = p
+        if getattr(spec, "uses_witness", False):
+            wl = p.extra.get("fnwit", [])
+            if not wl:
+                ex.oblig(p, "KIND", "witness-callback", BoolVal(False), note="no callback was built on this path")
+                continue
+            ctx.wit = wl[-1]
         cands = [o for o in spec.outcomes if o.matches(x)]
         if not cands:
             ex.oblig(p, "SAFE", "undeclared-exit:%s" % x.label, BoolVal(False),
@@ -725,7 +784,9 @@ def verify_spec(spec):
                 if o2 is not o and o2.when is not None and not o2.user:
                     ex.oblig(p, "RAISES", "%s/not-%s" % (o.label, o2.label), Not(o2.when(ctx)),
                              props=spec.props | {"C02"})
-        if o.res == "payload":
+        if o.res == "exc":
+            value = V("excargs", x.exc.payload)
+        elif o.res == "payload":
             value = x.exc.payload
             if value is None or not isinstance(value, V) or value.k != "int":
                 ex.oblig(p, "KIND", "%s/witness" % o.label, BoolVal(False), note="exception carries no witness")
@@ -736,10 +797,8 @@ def verify_spec(spec):
             if value is None:
                 ex.oblig(p, "KIND", "%s/witness" % o.label, BoolVal(False), note="exit is not inside loop %s" % o.res)
                 continue
-        if o.res != "none" and x.kind == "return":
-            if value is None or (o.res == "ref" and value.k not in ("ref",)) or \
-                    (o.res == "aseq" and value.k not in ("aseq",)) or (o.res == "bool" and value.k != "bool") \
-                    or (o.res == "int" and value.k != "int") or (o.res == "listref" and value.k != "listref"):
+        if o.res != "none" and o.res != "exc" and x.kind == "return":
+            if value is None or not world.kind_ok(o.res, value):
                 ex.oblig(p, "KIND", "%s/result-kind" % o.label, BoolVal(False),
                          note="result %r is not of the contract's kind %s" % (value, o.res))
                 continue
@@ -756,4 +815,4 @@ def verify_spec(spec):
             goal, sfx = c.provable()
             ex.oblig(p, "POST" if x.kind == "return" else "EXC", "%s/%s%s" % (o.label, c.name, sfx), goal,
                      props=c.props or spec.props)
-    return fi, ex.obl, fails
+    return
